@@ -936,9 +936,11 @@ def run_case(ctx, case):
 # generator
 
 SYM_NAMES = ['main', 'printf', '_start', '__gmon_start__', 'ab', 'bA', 'ac', 'bB', 'é', 'λx', '中文名字', 'sym_with_a_rather_long_name_' * 2,
-             'f', 'g0', 'g1', 'g2', 'environ', '_ITM_deregisterTMCloneTable', 'x', 'y_y']
+             'f', 'g0', 'g1', 'g2', 'environ', '_ITM_deregisterTMCloneTable', 'x', 'y_y',
+             # strings beyond every plausible read size (mangled C++ names, Nix / Spack run paths): 4095, 4096, 4097 and 20 000 bytes
+             '_ZN' + 'q' * 4092, '_ZN' + 'r' * 4093, '_ZN' + 's' * 4094, '_ZN4' + 'tu' * 10000]
 LIB_NAMES = ['libc.so.6', 'libm.so.6', 'libfoo.so.1', '$ORIGIN/../lib', '/usr/lib:/opt/lib', 'libé.so', 'ld-linux.so.2', 'libdl.so.2',
-             '/a/very/long/run/path/' * 4, 'z']
+             '/a/very/long/run/path/' * 4, 'z', '/nix/store/' + 'p' * 4084, '/nix/store/' + 'q' * 4085, ':'.join('/opt/spack/%04d/lib' % i for i in range(400))]
 VAL_TAGS = [30, 0x6ffffffb, 24, 16, 22, 0x6ffffff9, 0x6ffffffa, 0x6fffffff, 0x6ffffffd, 27, 28, 33, 0x6ffffdf8, 0x6ffffdf6, 0x6ffffdf7]
 PTR_TAGS = [3, 12, 13, 25, 26, 32, 0x6ffffff0, 0x6ffffffe, 0x6ffffffc, 0x6ffffef6, 0x6ffffef7, 0x6ffffeff]
 MIPS_TAGS = list(range(0x70000001, 0x70000017)) + [0x70000035, 0x70000036, 0x70000029, 0x70000030]
